@@ -1038,6 +1038,13 @@ impl<'a> P<'a> {
                         self.type_spans.push((start, self.prev_end()));
                         tys = Some(list);
                     }
+                    // Lua 5.1 (lparser.c funcargs): the same "ambiguous syntax" rule applies to the arguments of a method call
+                    if self.mode == Mode::Lua51 && self.peek_is_sym(0, "(") && self.i > 0 {
+                        let prev_end = self.toks[self.i - 1].end;
+                        if self.src[prev_end..self.pos()].contains(&b'\n') {
+                            return self.err("ambiguous syntax (function call x new statement)");
+                        }
+                    }
                     let (args, kind) = self.parse_call_args()?;
                     e = Expr::MethodCall(Box::new(e), n, args, kind, tys);
                 }
